@@ -191,9 +191,10 @@ Variable cfg : tconfig.
 
 Inductive tyout := TyNext (cs : list ctype) (st : tstate) | TyDone (r : pres).
 
-(* one iteration of run_validation's loop: traverser.next_event(), validate_event_with_type *)
-Definition typed_step (cs : list ctype) (st : tstate) : tyout :=
-  match step Scrypto cfg st with
+(* the typed layer applied to the untyped traverser's step result: map_*_event, then
+   validate_event_with_type *)
+Definition typed_out (cs : list ctype) (o : tout) : tyout :=
+  match o with
   | TPanic => TyDone PPanic
   | TStep e st' =>
     match l_ev e with
@@ -231,6 +232,10 @@ Definition typed_step (cs : list ctype) (st : tstate) : tyout :=
     | EvError err => TyDone (PErr (PDecode err))
     end
   end.
+
+(* one iteration of run_validation's loop: traverser.next_event(), validate_event_with_type *)
+Definition typed_step (cs : list ctype) (st : tstate) : tyout :=
+  typed_out cs (step Scrypto cfg st).
 
 Fixpoint typed_run (fuel : nat) (cs : list ctype) (st : tstate) : pres :=
   match fuel with
